@@ -7,7 +7,7 @@ import ast
 from ..astutil import inside, norm_cmp
 from ..tutil import normalise, np_call
 from ..cfg import CFG
-from ..core import AnalysisError, const_value, walk_own
+from ..core import callee_is, AnalysisError, const_value, walk_own
 from ..defuse import DefUse, Terms, show, walk_term
 from ..defuse import key as tkey
 from ..flow import Flow
@@ -697,30 +697,37 @@ def _label_taint(ctx):
     cp = prog.func("mokapot.brew._create_psms")
     cfg = CFG(cp.node)
     conv = [n for n in ast.walk(cp.node) if isinstance(n, ast.Call)
-            and ast.unparse(n.func).endswith("convert_targets_column")]
+            and callee_is(prog, cp, n, CONV)]
     ctor = [n for n in ast.walk(cp.node) if isinstance(n, ast.Call)
-            and ast.unparse(n.func) == "LinearPsmDataset"]
+            and callee_is(prog, cp, n, "LinearPsmDataset")]
     ok = len(conv) == 1 and len(ctor) == 1 and cfg.every_path_passes(
         cfg.entry.id, cfg.node_of(ctor[0]).id, {cfg.node_of(conv[0]).id})
     if ok:
-        kws = {k.arg: ast.unparse(k.value) for k in conv[0].keywords}
-        ck = {k.arg: ast.unparse(k.value) for k in ctor[0].keywords}
-        ok = kws.get("data") == ck.get("psms") and kws.get(
-            "target_column") == ck.get("target_column")
+        cT = Terms(DefUse(prog, cp))
+        kb = {k: cT.of(v) for k, v in prog.bind(
+            prog.func(CONV), conv[0]).items()}
+        cb = {k: cT.of(v) for k, v in prog.bind(
+            prog.func("mokapot.dataset.LinearPsmDataset.__init__"),
+            ctor[0]).items()}
+
+        def frame(t):
+            # the frame object, also after the in-place conversion
+            while t[0] in ("store", "mut", "mutsub") or (
+                    t[0] == "call" and t[1] == CONV and t[2]):
+                t = t[1] if t[0] != "call" else t[2][0]
+            return t
+        ok = kb.get("data") is not None and frame(
+            kb.get("data")) == frame(cb.get("psms", ("x",))) and \
+            kb.get("target_column") == cb.get("target_column")
     ctx.check(ok, "C07b-dataset-labels-converted", cp,
               "file data is converted before it becomes a dataset (whose "
               "constructor casts labels with astype(bool))",
               "LinearPsmDataset is built from file data whose label column "
               "was not converted: -1 would become True", node=cp.node)
-    # the converter itself maps exactly 1 -> True
-    cv = prog.func(CONV)
-    sets = [n for n in ast.walk(cv.node) if isinstance(n, ast.Assign)
-            and isinstance(n.targets[0], ast.Subscript)]
-    ok_c = len(sets) == 1 and ast.unparse(sets[0].value) in (
-        "labels == 1",)
-    ctx.check(ok_c, "C07b-converter", cv,
-              "convert_targets_column maps exactly label 1 to True",
-              f"{[ast.unparse(s) for s in sets]}", node=cv.node)
+    # the converter itself maps exactly 1 -> True: the label table of
+    # C10b, evaluated on terms over label vectors (shared clause)
+    from .c10 import _label_table
+    _label_table(ctx, prog.func(CONV))
 
 
 def _targets_clean(prog, caller, t, node, depth):
